@@ -45,6 +45,12 @@ def generate(ctx, rng):
         yield ("types", t), {**base, "family": "types"}
         yield ("otherkey", t), {**base, "family": "otherkey", "other": rng.randbytes(32)}
         yield ("header", t), {**base, "family": "header"}
+    # genuine replies that are late: well inside the read timeout, and arriving in the window right after a read
+    # timeout fired but before the retry starts (same loop iteration: the 2 s timer runs first, then the delivery)
+    for j, delay in enumerate([0.0, 0.3, 1.0, 1.75, 1.999, 2.0 + 1e-7] * (4 if quick else 60)):
+        yield ("genuine-delayed", j), {"token": rng.randbytes(64), "key": rng.randbytes(32), "nonce": None, "reply_delay": delay,
+                                       "key_form": rng.choice(["bytes", "hex"]), "token_form": "bytes", "prior": False,
+                                       "tid": 20000 + j, "family": "genuine"}
     for j in range(60 if quick else 3000):
         yield ("genuine-extra", j), {"token": rng.randbytes(64), "key": rng.randbytes(32), "nonce": rng.randbytes(32),
                                      "key_form": rng.choice(["bytes", "hex"]), "token_form": rng.choice(["bytes", "hex"]),
@@ -101,7 +107,7 @@ def _alterations(case):
 
 
 def run_case(ctx, case):
-    token, key, nonce = bytes(case["token"]), bytes(case["key"]), bytes(case["nonce"])
+    token, key, nonce = bytes(case["token"]), bytes(case["key"]), bytes(case["nonce"] or b"")
     tok_arg, key_arg = _form(token, case["token_form"]), _form(key, case["key_form"])
     if case["family"] == "genuine":
         return _genuine(ctx, case, token, key, nonce, tok_arg, key_arg)
@@ -216,8 +222,19 @@ async def _tick():
 
 def _genuine(ctx, case, token, key, nonce, tok_arg, key_arg):
     net = H.new_net()
-    dev = SimDevice(net, version=3, token=token, key=key, device_id=0xD00D)
-    dev.nonce_source = lambda: nonce
+    dev = SimDevice(net, version=3, token=token, key=key, device_id=0xD00D, seed=case["tid"])
+    if nonce:
+        dev.nonce_source = lambda: nonce
+    if case.get("reply_delay"):
+        # a fresh nonce per handshake request (the device re-keys on every request it answers)
+        # only the reply to the FIRST request is late; a device that is always slower than the timeout may legitimately fail
+        nreq = {"n": 0}
+
+        def on_handshake(conn, ok, reply, info):
+            nreq["n"] += 1
+            return [(case["reply_delay"] if nreq["n"] == 1 else 0.0, reply)] if ok else None
+
+        dev.on_handshake = on_handshake
 
     async def go(loop):
         ac = AC(ip=dev.host, port=dev.port, device_id=dev.device_id)
@@ -229,14 +246,13 @@ def _genuine(ctx, case, token, key, nonce, tok_arg, key_arg):
         frames = await lan.send(acframe.state_query())
         return stored, ac.online, (lan.token, lan.key), len(frames)
 
-    k = (case["tid"], "genuine", case["key_form"], case["token_form"])
+    k = (case["tid"], "genuine", case["key_form"], case["token_form"], case.get("reply_delay"))
     try:
         (stored, online, lanstored, nframes), loop = H.run_virtual(go, net)
     except Exception as e:  # noqa: BLE001
         ctx.count(k, kind="genuine-failed")
         ctx.violation("genuine-rejected", f"genuine handshake failed: {type(e).__name__}: {e}", case)
         return
-    expect_key = v3.session_key(key, nonce)
     good = [d for d in dev.data_packets if d[4]]
     bad = [d for d in dev.data_packets if not d[4]]
     if stored != (token.hex(), key.hex()) or lanstored != (token, key):
@@ -245,6 +261,6 @@ def _genuine(ctx, case, token, key, nonce, tok_arg, key_arg):
         ctx.count(k, kind="genuine-no-exchange")
         ctx.violation("no-key-agreement", f"exchange after a genuine handshake not accepted by the device (online={online}, rejected={[b[5] for b in bad][:2]})", case)
         return
-    if any(c.skey != expect_key for c in dev.conns):
+    if nonce and any(c.skey != v3.session_key(key, nonce) for c in dev.conns):
         ctx.inconclusive_because("simulated device did not derive nonce XOR key")
     ctx.count(k, kind="genuine-ok", sample={"key_form": case["key_form"], "token_form": case["token_form"]})
